@@ -72,7 +72,7 @@ def run(v, tier, seed, replay):
     v.cov["protocol_events_validated"] = nev
     solver.long_evolve(v, exe)
     # ---- lifetimes (module SolverSeq): every sequence of construct / re-initialise to another size / toggle / Evolve / move
-    cfq = os.path.join(vlib.BUILD, "C10_solverseq.cfg")
+    cfq = os.path.join(vlib.cfgdir(), "C10_solverseq.cfg")
     with open(cfq, "w") as f:
         f.write("SPECIFICATION Spec\nCONSTANTS\n  MaxOps = %d\nACTION_CONSTRAINT Emit\nCHECK_DEADLOCK FALSE\n" % (5 if tier == "quick" else 6))
     rq = vlib.tlc("SolverSeq", cfq, timeout=900, coverage=False)
@@ -91,14 +91,17 @@ def run(v, tier, seed, replay):
     # ---- the whole configuration travels with a move (module SolverCfg): every history of setters and moves replayed
     nsc = 0
     for decoy in ("TRUE", "FALSE"):
-        cfgp = os.path.join(vlib.BUILD, "C10_solvercfg_%s.cfg" % decoy)
+        cfgp = os.path.join(vlib.cfgdir(), "C10_solvercfg_%s.cfg" % decoy)
         with open(cfgp, "w") as f:
             f.write("SPECIFICATION Spec\nCONSTANTS\n  MaxOps = %d\n  Decoy = %s\nINVARIANT LineageOK\nACTION_CONSTRAINT Emit\nCHECK_DEADLOCK FALSE\n" % (2 if tier == "quick" else 3, decoy))
         rc_ = vlib.tlc("SolverCfg", cfgp, timeout=900, coverage=False)
         vlib.tlc_ok(rc_, "SolverCfg")
         if rc_.violated:
             raise Infra("SolverCfg violates %s (model defect)" % rc_.violated)
-        ed = [e for e in rc_.edges if any(h[0] != "set" for h in e["hist"])]      # histories with at least one move
+        # histories with at least one move, every history of at most two setter calls, and every longer one over the term switches and the
+        # master switch (a setter called with the value the field already has, a master switch set against the terms, ...)
+        SWF = ("sw1", "sw2", "sw3", "sw4", "sw5", "any")
+        ed = [e for e in rc_.edges if e["hist"] and (any(h[0] != "set" for h in e["hist"]) or len(e["hist"]) <= 2 or all(h[1] in SWF for h in e["hist"]))]
         if len(ed) < 50:
             raise Infra("SolverCfg exported only %d histories with a move" % len(ed))
         cres, cfails = solver.cfg_replay(exe, ed)
@@ -110,7 +113,7 @@ def run(v, tier, seed, replay):
         for i, what, detail in cres:
             e = ed[i]
             mv = [h[0] for h in e["hist"] if h[0] != "set"]
-            v.violation("solvercfg/%s/%s" % (mv[-1], what), "history %s (decoy object %s): %s" % (e["hist"], "present" if e["decoy"] else "absent", detail), {"hist": e["hist"], "decoy": e["decoy"], "cfg": e["cfg"]})
+            v.violation("solvercfg/%s/%s" % (mv[-1] if mv else "setters", what), "history %s (decoy object %s): %s" % (e["hist"], "present" if e["decoy"] else "absent", detail), {"hist": e["hist"], "decoy": e["decoy"], "cfg": e["cfg"]})
         v.add("states", rc_.distinct); v.add("transitions", rc_.generated)
         nsc += len(ed)
     v.cov["configuration_histories_with_moves"] = nsc
@@ -184,7 +187,7 @@ def run(v, tier, seed, replay):
     # ---- step-size controls interleaved with Evolve over fractions of a tick (module StepCtl with EVals): the state after
     #      a history is the flow over the elapsed time whatever h, h_min, h_max are; GSL may refuse a run (reported by
     #      Evolve as an exception): such histories are not judged beyond the read-back of the controls.
-    cfg2 = os.path.join(vlib.BUILD, "C10_stepctl_ev.cfg")
+    cfg2 = os.path.join(vlib.cfgdir(), "C10_stepctl_ev.cfg")
     with open(cfg2, "w") as f:
         f.write("SPECIFICATION Spec\nCONSTANTS\n  Vals = {1, 4, 64}\n  EVals = {1, 1023, 1024}\n  MaxEl = 2048\n  MaxOps = %d\nACTION_CONSTRAINT Emit\nCHECK_DEADLOCK FALSE\n" % (3 if tier == "quick" else 4))
     re_ = vlib.tlc("StepCtl", cfg2, timeout=900, coverage=False)
